@@ -149,7 +149,7 @@ func (te *TwitterExtractor) getTweetIdFromURL(tweetURL string) string {
 		tweetURL = "http:" + tweetURL
 	}
 
-	parsedURL, err := nurl.ParseRequestURI(tweetURL)
+	parsedURL, err := nurl.Parse(tweetURL)
 	if err != nil {
 		return ""
 	}
